@@ -296,7 +296,7 @@ def _compare(fa, fb, sig, what, ctx):
 
 CHECK = Check(
     P, 'exploration',
-    rule=('graph part: Hypothesis-generated DAGs of 2-9 named nodes (Prior/Simulator operations that draw 0-3 values from the generator '
+    rule=('graph part: Hypothesis-generated DAGs of 2-9 named nodes (names mostly case twins such as a/A, mu/MU/Mu, n2/n10; Prior/Simulator operations that draw 0-3 values from the generator '
           'they are handed and report them, deterministic Operations, Constants), seeds over uint32 as int/np.uint32/np.int32, batch '
           'sizes 1-5, batch indices 0-60, output subsets, histories of 0-6 unrelated actions (np.random reseed/consume, other models, '
           'other batch indices on the SAME context incl. later and repeated ones), a second insertion order, multiprocessing client '
